@@ -65,6 +65,25 @@ def dummy(ty, elem):
     return None
 
 
+def bad_dummy(ty, elem):
+    """an OUT-OF-DOMAIN expression of the given argument type (an error receiver must come back unchanged whatever the
+    other arguments are: seeded change C09i evaluated an option name before looking at the receiver), or None"""
+    ty = ty.strip()
+    table = {
+        "usize": "99", "isize": "-99", "&[usize]": "&[99usize]", "Vec<usize>": "vec![99usize]", "Vec<isize>": "vec![99isize]",
+        "&[isize]": "&[99isize]", "Option<usize>": "Some(99)", "Option<isize>": "Some(-99)",
+        "Option<Vec<isize>>": "Some(vec![99isize])", "Option<Vec<usize>>": "Some(vec![99usize])",
+        "std::ops::Range<usize>": "7..2",
+    }
+    if ty in table:
+        return table[ty]
+    if re.match(r"^Option<impl (\w+)>$", ty):
+        return 'Some("bogus")'
+    if re.match(r"^impl (\w+)$", ty):
+        return '"bogus"'
+    return None
+
+
 def scan():
     methods = []
     for dp, _, fns in os.walk(REPO):
@@ -105,6 +124,7 @@ def elem_for(m):
 def generate():
     methods = scan()
     covered, uncovered = [], []
+    invalid_calls = []
     body = []
     for k, m in enumerate(methods):
         elem = elem_for(m)
@@ -127,6 +147,20 @@ def generate():
         body.append(f"    // {m['file']}\n    {{ let recv: Result<Array<{elem}>, ArrayError> = Err(e.clone()); "
                     f"check(&mut bad, \"{m['trait']}::{m['name']}\", {call}.err(), e); n += 1; }}")
         covered.append(f"{m['trait']}::{m['name']}")
+        # the same call with out-of-domain values wherever an argument type has one
+        bvals, any_bad = [], False
+        for a, v in zip(m["args"], vals):
+            ty = a.split(":", 1)[1].strip().replace("N", elem) if re.search(r"\bN\b", a) else a.split(":", 1)[1].strip()
+            ty = re.sub(r"\bT\b", elem, ty)
+            b = bad_dummy(ty, elem)
+            if b is not None:
+                any_bad = True
+            bvals.append(b if b is not None else v)
+        if any_bad:
+            call = f"{m['trait']}::{m['name']}(&recv, {', '.join(bvals)})"
+            body.append(f"    {{ let recv: Result<Array<{elem}>, ArrayError> = Err(e.clone()); "
+                        f"check(&mut bad, \"{m['trait']}::{m['name']}#invalid-args\", {call}.err(), e); n += 1; }}")
+            invalid_calls.append(f"{m['trait']}::{m['name']}")
     src = ["// generated by tools/inventory.py — do not edit", "#![allow(clippy::all)]", "#![allow(unused_imports)]",
            "use arr_rs::prelude::*;", "",
            "fn other<T: ArrayElement>() -> Array<T> { Array::single(T::one()).unwrap() }",
@@ -135,7 +169,8 @@ def generate():
            "/// calls every covered chainable method on the receiver Err(e); returns (methods called, failures)",
            "pub fn propagate(e: &ArrayError) -> (usize, Vec<String>) {", "    let mut bad: Vec<String> = vec![];", "    let mut n = 0usize;"]
     src += body
-    src += ["    (n, bad)", "}", "", f"pub const COVERED: usize = {len(covered)};", f"pub const UNCOVERED: usize = {len(uncovered)};"]
+    src += ["    (n, bad)", "}", "", f"pub const COVERED: usize = {len(covered)};", f"pub const UNCOVERED: usize = {len(uncovered)};",
+            f"pub const WITH_INVALID_ARGS: usize = {len(invalid_calls)};"]
     text = "\n".join(src) + "\n"
     old = open(OUT).read() if os.path.exists(OUT) else None
     if old != text:
